@@ -625,10 +625,7 @@ func (ex *Exec) binop(st *State, op token.Token, xv, yv Val, xt, rt types.Type, 
 						c = cx
 					}
 					if c != nil && new(big.Int).Abs(c).Cmp(big.NewInt(65536)) >= 0 {
-						p := Mul(x, y)
-						lo, hi := BigT(new(big.Int).Neg(pow2(63))), BigT(pow2(63))
-						wrapped := Sub(App(SInt, "mod", Add(p, BigT(pow2(63))), BigT(pow2(64))), BigT(pow2(63)))
-						return Ite(And(Le(lo, p), Lt(p, hi)), p, wrapped)
+						return wrapMul64(x, y)
 					}
 				}
 			}
@@ -1229,4 +1226,12 @@ func (ex *Exec) safetyProps() []string {
 		}
 	}
 	return ps
+}
+
+// wrapMul64: the product of two 64-bit signed integers as the machine computes it (wrap-around).
+func wrapMul64(x, y Term) Term {
+	p := Mul(x, y)
+	lo, hi := BigT(new(big.Int).Neg(pow2(63))), BigT(pow2(63))
+	wrapped := Sub(App(SInt, "mod", Add(p, BigT(pow2(63))), BigT(pow2(64))), BigT(pow2(63)))
+	return Ite(And(Le(lo, p), Lt(p, hi)), p, wrapped)
 }
